@@ -221,8 +221,33 @@ fn seeks<W: Word>(tr: &mut Tr, rng: &mut SmallRng) {
     let mut ad = WordAdapter::<W, _>::new(Faulty(sh.clone()));
     let id = tr.new_id();
     tr.emit(Ev::new("aw_new_r").i("o", id).i("wb", W::BYTES as i64).bytes("src", &src));
-    for _ in 0..12 {
-        let p = rng.random_range(0..6u64);
+    for it in 0..24 {
+        // every other round: first leave the byte stream in the middle of a word (a read that gets j
+        // bytes and then fails), so that word_pos() rounds up and a seek to that very word must still move
+        let mut target = None;
+        if it % 2 == 1 && W::BYTES > 1 {
+            let wpos = rng.random_range(0..5u64);
+            let _ = ad.set_word_pos(wpos);
+            let j = rng.random_range(1..W::BYTES);
+            {
+                let mut s = sh.borrow_mut();
+                s.calls = 0;
+                s.sched = vec![W::BYTES - j, (W::BYTES - j) + 2];
+            }
+            let _ = ad.read_word();
+            {
+                let mut s = sh.borrow_mut();
+                s.sched = vec![];
+            }
+            let bp = sh.borrow().pos;
+            if let Ok(q) = ad.word_pos() {
+                tr.emit(Ev::new("aw_pos").i("o", id).i("ret", q as i64).i("bytepos", bp as i64).i("wb", W::BYTES as i64));
+                if it % 4 == 1 {
+                    target = Some(q);
+                }
+            }
+        }
+        let p = target.unwrap_or_else(|| rng.random_range(0..6u64));
         let r = ad.set_word_pos(p);
         let bp = sh.borrow().pos;
         tr.emit(Ev::new("aw_setpos").i("o", id).i("p", p as i64).s("res", if r.is_ok() { "ok" } else { "err" }).i("bytepos", bp as i64).i("wb", W::BYTES as i64));
@@ -314,6 +339,12 @@ pub fn run(tr: &mut Tr, seed: u64, depth: usize, nrand: usize) -> (u64, u64) {
     random_scheds::<u64>(tr, &mut rng, nrand, 4, &mut tests, &mut distinct);
     random_scheds::<u128>(tr, &mut rng, nrand, 3, &mut tests, &mut distinct);
     tr.reset();
+    seeks::<u16>(tr, &mut rng);
+    tr.reset();
     seeks::<u32>(tr, &mut rng);
+    tr.reset();
+    seeks::<u64>(tr, &mut rng);
+    tr.reset();
+    seeks::<u128>(tr, &mut rng);
     (tests, distinct.len() as u64)
 }
